@@ -21,9 +21,13 @@ CLAIMS = {
  "C16": ("pure-l0", "§6 C16", "FlowDesc.tla: what an IPFilterRule denotes (octet-wise prefix masking, port ranges, uplink exchange); TLC enumerates abstract rules per grammar dimension (all protocols, prefix lengths 0..32, port lists of 0..3 items); rendered strings (varied spacing) go through the real parser and the real netlink encoder, the packed attributes are read back by an independent walker, TLC validates both results; near-miss and random strings must not fault."),
  "C19": ("pure-l0", "§6 C19", "Flags.tla: the four bit tables transcribed from TS 29.244; TLC enumerates the words (all 1-/2-octet apply-action words, reporting triggers, usage-report triggers, cause mapping, volume flags x MNOP) and checks the table round-trip; the real decoders/encoders/accessors are evaluated on every word, TLC validates what they answered."),
  "C20": ("pure-l0", "§6 C20", "Config.tla: accept/reject/silent verdict over the fault lattice of the configuration document; TLC enumerates all documents with up to 2 (thorough: 3) simultaneous faults, rendered YAML goes through the real ReadConfig, TLC validates acceptance, absence of a partially initialised object and unchanged values. The gtp5g version window is decided against the simulated netlink endpoint (second part of this check)."),
+ "C02": ("driver-l2", "§6 C02", "RuleXlate.tla: translation of Create/Update PDR and FAR grouped IEs to bags of netlink leaves, on octets (no truncation, shift or cross-wiring can go unnoticed; 64-bit SEIDs need no arithmetic). TLC enumerates the structures (optional IEs present/absent/repeated, up/downlink, 1-/2-octet apply action, outer-header-creation forms) and checks order-independence of the reference; the harness concretises values (boundary classes, random octets, 64-bit SEIDs) and permutes the children; the REAL gtp5g driver runs against a simulated gtp5g netlink endpoint whose own attribute walker decodes each request; TLC validates every recorded request."),
+ "C03": ("driver-l2", "§6 C03", "As C02 for QER, URR and BAR (40-bit rates split high32/low8, trigger words, every non-empty threshold/quota flag subset, 64-bit volumes); the periodic registration is observed as the OIDs of the GET_MULTI_REPORTS issued on an injected tick after Create URR and after Remove URR, judged against a ghost registration set."),
 }
 L0_NOTE = ("Trusted: TLC 1.8 + CommunityModules Json; the hand transcription of the standards' tables / the statement into the reference module "
            "(its internal consistency is model-checked); the harness's rendering of abstract vectors into concrete inputs.")
+L2_NOTE = ("Trusted: TLC 1.8 + Json; go-gtp5gnl's numeric command / attribute ids (shared by driver and simulated kernel); go-pfcp's IE parser (IEs are built from raw TLV octets and parsed as on receipt); "
+           "the simulated kernel (internal/zzverif/simk, overlay) as twin of the gtp5g module - the real module is never run.")
 checks = []
 for p in props:
     pid = p["id"]
@@ -38,8 +42,9 @@ for p in props:
         "replay_cmd_template": "./check %s --replay {path}" % pid,
         "engine": eng,
         "level_claimed": {"category": "model_checking", "text": text, "design_ref": ref},
-        "level_note": L1_NOTE if eng == "pfcp-l1" else L0_NOTE,
+        "level_note": L1_NOTE if eng == "pfcp-l1" else (L0_NOTE if eng == "pure-l0" else L2_NOTE),
         "technique": ("explicit TLA+ spec (ideal model + property monitors), TLC exhaustive check, TLC-generated paths replayed on the real code, TLC trace validation of recorded executions" if eng == "pfcp-l1" else
+                      "explicit TLA+ translation reference (RuleXlate.tla), TLC-enumerated IE structures driven through the real gtp5g driver into a simulated netlink kernel, TLC trace validation of the decoded requests" if eng == "driver-l2" else
                       "explicit TLA+ reference function, TLC-enumerated test vectors evaluated by the real code, TLC trace validation of the recorded results"),
     })
 na = [{"property_id": p["id"], "reason": "check under construction in this round (not yet registered); see DESIGN.md"} for p in props if p["id"] not in CLAIMS]
@@ -53,6 +58,8 @@ m = {
     "kind_free_text": "real PfcpServer (real loop, receiver, UDP on 127.k.0.0/24) + model data plane; TLA+ ideal model and monitors; TLC both ways"},
    {"name": "pure-l0", "path": "/verif/harness/{gtpv1,report,forwarder,factory}, /verif/spec/{GtpuEnc,Flags,FlowDesc,Config}.tla + MC_*/Trace_*", "serves_properties": sorted(k for k, v in CLAIMS.items() if v[0] == "pure-l0"),
     "kind_free_text": "function-level executors (overlay test files) fed with TLC-enumerated vectors; TLA+ reference functions"},
+   {"name": "driver-l2", "path": "/verif/harness/{forwarder,simk,perio,buffnetlink}, /verif/spec/{RuleXlate,MC_Rules,Trace_Rules}.tla", "serves_properties": sorted(k for k, v in CLAIMS.items() if v[0] == "driver-l2"),
+    "kind_free_text": "real Gtp5g driver + real perio server on a simulated gtp5g generic-netlink endpoint (socketpair nl.Conner, real nl.Mux)"},
  ],
  "checks": checks,
  "not_applicable": na,
